@@ -17,6 +17,7 @@ cassette).  The Lean model keeps immutable values, so such a case must say `"mod
 the oracle still compares the stored recordings with the synchronous twin's (which serialised the value at save time).
 """
 import os
+import zlib
 import random
 
 from harness.engine import Prop, InfraError, _impl_worker
@@ -167,7 +168,14 @@ def _classes():
                         sched.yield_point('line')
                 if desc in self.poisoned:
                     entry[1] = False
-                    raise Injected('injected failure of %r' % (desc,))
+                    # the shape of the failure varies with the request: with a message, without arguments (like a bare
+                    # `assert`), a built-in exception without arguments
+                    shape = zlib.crc32(repr(desc).encode()) % 3
+                    if shape == 0:
+                        raise Injected('injected failure of %r' % (desc,))
+                    if shape == 1:
+                        raise Injected()
+                    raise AssertionError()
                 try:
                     res = thunk()
                 except Exception:
